@@ -165,7 +165,7 @@ def coq_make(targets=None, timeout=1500):
         if not os.path.exists(os.path.join(COQ, "Makefile")):
             subprocess.check_call(["coq_makefile", "-f", "_CoqProject", "-o", "Makefile"],
                                   cwd=COQ, stdout=subprocess.DEVNULL)
-        cmd = ["timeout", str(timeout), "make", "-j%d" % NCPU] + list(targets or [])
+        cmd = ["timeout", str(timeout), "make", "-k", "-j%d" % NCPU] + list(targets or [])
         p = subprocess.run(cmd, cwd=COQ, stdout=subprocess.PIPE, stderr=subprocess.STDOUT)
         return p.returncode == 0, p.stdout.decode(errors="replace")
 
